@@ -306,23 +306,24 @@ class Runner:
             state["pieces"] = [z[a:b] for a, b in zip([0] + cuts, cuts + [len(z)])]
         return write_frame(op, j == n, state["pieces"][j - 1], self._mask(d), rsv1=(j == 1))
 
-    def _msg_in(self, d, msg):
+    def _msg_in(self, d, msg, ictl=False):
         frags = list(msg["frames"])
         self.trace.append({"k": "msg_in", "d": d, "typ": msg["typ"], "c": self.iid(msg["data"]),
                            "frags": [0] * len(frags) if self.deflate else frags,
-                           "split": msg["typ"] == "text" and is_split(msg["data"], frags)})
+                           "split": msg["typ"] == "text" and is_split(msg["data"], frags),
+                           "ictl": bool(ictl), "z": self.deflate})
 
     def send_frame(self, d, msg) -> bool:
         """next frame of the message in progress in direction d, or the first frame of msg"""
         p = self.progress[d]
         if p is None:
-            p = self.progress[d] = {"msg": msg, "j": 0, "st": {}}
+            p = self.progress[d] = {"msg": msg, "j": 0, "st": {}, "ictl": False}
         p["j"] += 1
         m, j = p["msg"], p["j"]
         data = self._frame_bytes(d, m, j, p["st"])
         if j == len(m["frames"]):
             self.progress[d] = None
-            self._msg_in(d, m)
+            self._msg_in(d, m, p["ictl"])
         self._wire(d, data)
         return True
 
@@ -337,7 +338,10 @@ class Runner:
         self._wire(d, data)
 
     def send_ctl(self, d, op, payload: bytes):
-        self.trace.append({"k": "ctl_in", "d": d, "op": op, "c": self.iid(payload)})
+        self.trace.append({"k": "ctl_in", "d": d, "op": op, "c": self.iid(payload),
+                           "mid": self.progress[d] is not None, "z": self.deflate})
+        if self.progress[d] is not None:
+            self.progress[d]["ictl"] = True
         self._wire(d, write_frame(OPC[op], True, payload, self._mask(d)))
 
     def send_close(self, d, code, reason: bytes):
@@ -463,11 +467,15 @@ def intern_pred(events):
 
 
 def zero_frags(events):
+    """what the model's records look like under permessage-deflate: frame lengths are not comparable, z is set"""
     out = []
     for ev in events:
-        if "frags" in ev:
+        if "frags" in ev or "z" in ev:
             ev = dict(ev)
-            ev["frags"] = [0] * len(ev["frags"])
+            if "frags" in ev:
+                ev["frags"] = [0] * len(ev["frags"])
+            if "z" in ev:
+                ev["z"] = True
         out.append(ev)
     return out
 
@@ -481,7 +489,7 @@ class Check(core.PropertyCheck):
                           "inject", "inject_mid_message", "dir_c2s", "dir_s2c", "act_keep", "act_edit", "act_drop",
                           "keep_fragmented", "edit_multibyte", "deliver", "deliver_fragmented", "ping", "pong",
                           "ctl_relayed", "close_with_code", "close_without_code", "eof", "closed")
-    REQUIRED_ACTIONS = ("SendFrame", "SendTwo", "SendCtl", "SendClose", "SendEof", "Inject", "HookDone", "Finish")
+    REQUIRED_ACTIONS = ("SendFrame", "HookDone", "Finish")
     ASSUMPTIONS = (
         "the HTTP upgrade is not replayed: the layer is constructed with a finished 101 flow; peers never send data "
         "frames after their close frame and never send invalid frames or invalid UTF-8",
@@ -495,19 +503,27 @@ class Check(core.PropertyCheck):
     def mon_constants(self, tier):
         return {}
 
+    BASE = {"Msgs": MSGS_QUICK, "Edits": EDITS_QUICK, "Injects": INJECTS_QUICK, "FS": FS_MODEL}
+    ALL_ACTS = frozenset(range(-1, len(EDITS_QUICK) + 1))
+    # A: one message, every template / addon action / direction, one other event (ping, pong, close, EOF, injection)
+    #    at every position.   B: two messages (also in one TCP segment), a hook pending while the next one arrives.
+    CONF_A = BASE | {"MaxMsgs": 1, "MaxExtra": 1, "Acts": ALL_ACTS, "Batches": False, "AfterClose": False}
+    CONF_B = BASE | {"MaxMsgs": 2, "MaxExtra": 0, "Acts": frozenset({-1, 0, 4}), "Batches": True, "AfterClose": False}
+    CONF_A2 = BASE | {"MaxMsgs": 1, "MaxExtra": 2, "Acts": ALL_ACTS, "Batches": False, "AfterClose": True}
+    CONF_B2 = BASE | {"MaxMsgs": 2, "MaxExtra": 1, "Acts": frozenset({-1, 0, 2, 4}), "Batches": True, "AfterClose": True}
+    CONF_SIM = BASE | {"MaxMsgs": 4, "MaxExtra": 3, "Acts": ALL_ACTS, "Batches": True, "AfterClose": True}
+
     def model_constants(self, tier):
-        if tier == "quick":
-            return {"Msgs": MSGS_QUICK, "Edits": EDITS_QUICK, "Injects": INJECTS_QUICK, "FS": FS_MODEL,
-                    "MaxMsgs": 2, "MaxCtl": 1, "MaxInj": 1, "Batches": True}
-        return {"Msgs": MSGS_QUICK, "Edits": EDITS_QUICK, "Injects": INJECTS_QUICK, "FS": FS_MODEL,
-                "MaxMsgs": 3, "MaxCtl": 1, "MaxInj": 1, "Batches": True}
+        return self.CONF_A
 
     def model_runs(self, ctx):
+        a = ctx.model_check(self.MODEL, self.CONF_A, dump=True, timeout=1500, tag="_A", invariants=())
+        b = ctx.model_check(self.MODEL, self.CONF_B, dump=True, timeout=1500, tag="_B", invariants=())
         if ctx.quick:
-            return [ctx.model_check(self.MODEL, self.model_constants("quick"), dump=True, timeout=1500)]
-        big = ctx.model_check(self.MODEL, self.model_constants("thorough"), dump=False, tag="_big", timeout=3000)
-        small = ctx.model_check(self.MODEL, self.model_constants("quick"), dump=True, timeout=1500)
-        return [small, big]
+            return [a, b]
+        a2 = ctx.model_check(self.MODEL, self.CONF_A2, dump=False, tag="_A2", timeout=3000, invariants=(), workers=4)
+        b2 = ctx.model_check(self.MODEL, self.CONF_B2, dump=False, tag="_B2", timeout=3000, invariants=(), workers=4)
+        return [a, b, a2, b2]
 
     @staticmethod
     def _ops(beh):
@@ -534,6 +550,16 @@ class Check(core.PropertyCheck):
     def _mk(self, consts, beh, rng, source):
         pred = intern_pred(core.predicted_events(beh))
         deflate = rng.random() < 0.3
+        # Under permessage-deflate the plaintext a frame yields depends on the compressor, so frame_buf (and with it
+        # what a same-length edit or an injection between fragments does) is not what the model computes; and wsproto
+        # loses the "compressed" state of a message when a control frame arrives between its fragments (finding F6).
+        # Behaviours with these ingredients are replayed without compression; the random driver covers them.
+        frag = any(len(m["frames"]) > 1 for op in self._ops(beh) if op[0] in ("frame", "two")
+                   for m in [consts["Msgs"][t - 1] for t in op[2:]])
+        risky = any(ev.get("mid") for ev in pred) or any(ev["k"] == "hook_done" and ev["act"] == "edit" and ev["mb"]
+                                                         for ev in pred)
+        if frag and risky:
+            deflate = False
         if deflate:
             pred = zero_frags(pred)
         data = {"msgs": [dict(m) for m in consts["Msgs"]], "edits": [list(e) for e in consts["Edits"]],
@@ -542,17 +568,16 @@ class Check(core.PropertyCheck):
         return core.Scenario(data, predicted=pred, source=source)
 
     def scenarios(self, ctx, models):
-        g = models[0].graph
-        consts = models[0].constants
-        behs = g.edge_cover(ctx.rng, max_len=40, tail=5)
-        behs += g.random_walks(ctx.rng, 1500 if ctx.quick else 12000, 30)
-        for b in behs:
-            yield self._mk(consts, b, ctx.rng, "model")
+        for m in models[:2]:
+            g = m.graph
+            behs = g.edge_cover(ctx.rng, max_len=40, tail=5)
+            behs += g.random_walks(ctx.rng, 800 if ctx.quick else 8000, 30)
+            for b in behs:
+                yield self._mk(m.constants, b, ctx.rng, "model")
         if not ctx.quick:
-            c2 = self.model_constants("thorough") | {"MaxMsgs": 5, "MaxCtl": 2, "MaxInj": 2}
-            behs2, _r = ctx.simulate(self.MODEL, c2, num=4000, depth=40)
+            behs2, _r = ctx.simulate(self.MODEL, self.CONF_SIM, num=5000, depth=40)
             for b in behs2:
-                yield self._mk(c2, b, ctx.rng, "simulate")
+                yield self._mk(self.CONF_SIM, b, ctx.rng, "simulate")
         rng = random.Random(ctx.seed + 28)
         for _ in range(600 if ctx.quick else 8000):
             yield core.Scenario({"random": True, "seed": rng.randrange(1 << 30), "n": rng.randint(4, 16),
@@ -642,7 +667,9 @@ def run_random(sc):
                 acts += [("frame", d)] * 4
                 if r.progress[d] is None:
                     acts += [("two", d)]
-                acts += [("ctl", d), ("close", d)]
+                acts += [("close", d)]
+                if risky or not (sc["deflate"] and r.progress[d] is not None):
+                    acts += [("ctl", d)]  # ping/pong between compressed fragments: only in risky runs (finding F6)
                 if rng.random() < 0.3:
                     acts.append(("eof", d))
                 if r.progress[d] is None or risky:
